@@ -164,23 +164,84 @@ def run_chi2(A, b, s, conv, order):
     return out
 
 
-def wls_mismatch(obs, exp):
-    """First attribute that differs from TLC's exact record, or None."""
+EPS = 2.220446049250313e-16
+
+
+def chi2_tol(chi, maxbs, n):
+    """Absolute tolerance for a float chi-square, tied to the RESIDUAL scale and not to |b*sqivar|^2: 1e-9 relative,
+    plus the rounding of the weighted residuals (each carries ~ulp(max |b s|), entering chi2 to first order through
+    sqrt(chi2) and to second order for an exact fit, with 1e-11 ~ eps * conditioning of these small systems)."""
+    chi = max(float(chi), 0.0)
+    return 1e-9 * chi + 256 * EPS * maxbs * np.sqrt(chi) * n + n * (1e-11 * maxbs) ** 2 + 1e-300
+
+
+def closef(obs, e, tol=RTOL):
+    e = float(e)
+    return bool(np.isfinite(obs)) and abs(float(obs) - e) <= tol * max(1.0, abs(e))
+
+
+VARIANTS = {
+    'plain': None,
+    # b * 2^20, sqivar * 2^16, A * 2^3: |b s|^2 ~ 1e23 while an exact fit still has chi2 = 0 (homogeneity laws)
+    'scaled': {'ka': 3, 'kb': 20, 'ks': 16, 'kz': None},
+    # a large model vector A.z * 2^24 added to b, sqivar * 2^10: high signal-to-noise, chi2 unchanged * 2^20
+    'highsn': {'ka': 0, 'kb': 0, 'ks': 10, 'kz': 24},
+}
+SHIFT_Z = [1, -1, 2]                         # LinSolve!ShiftZ
+
+
+def transform(c, exp, variant):
+    """(A, b, s, expected record as Fractions) of a variant of the enumerated system; the expected values are
+    TLC's, rescaled / shifted as the laws HomogeneousInA/B/S and ModelShift (TLC-checked) prescribe."""
+    A, b, s = c['A'], c['b'], c['s']
+    e = {'acoeff': [fr(q) for q in exp['acoeff']], 'yfit': [fr(q) for q in exp['yfit']], 'chi2': fr(exp['chi2']),
+         'dof': exp['dof'], 'covar': [[fr(q) for q in row] for row in exp['covar']], 'var': [fr(q) for q in exp['var']]}
+    v = VARIANTS[variant]
+    if v is None:
+        return A, b, s, e
+    M = len(A[0])
+    if v['kz'] is not None:
+        z = [SHIFT_Z[j] * 2 ** v['kz'] for j in range(M)]
+        az = [sum(row[j] * z[j] for j in range(M)) for row in A]
+        b = [bi + azi for bi, azi in zip(b, az)]
+        e['acoeff'] = [x + zj for x, zj in zip(e['acoeff'], z)]
+        e['yfit'] = [y + azi for y, azi in zip(e['yfit'], az)]
+    fa, fb, fs = 2 ** v['ka'], 2 ** v['kb'], 2 ** v['ks']
+    A2 = [[fa * x for x in row] for row in A]
+    b2 = [fb * x for x in b]
+    s2 = [fs * x for x in s]
+    e['acoeff'] = [x * Fraction(fb, fa) for x in e['acoeff']]
+    e['yfit'] = [y * fb for y in e['yfit']]
+    e['chi2'] = e['chi2'] * (fb * fs) ** 2
+    e['covar'] = [[x / Fraction((fa * fs) ** 2) for x in row] for row in e['covar']]
+    e['var'] = [x / Fraction((fa * fs) ** 2) for x in e['var']]
+    return A2, b2, s2, e
+
+
+def wls_mismatch(obs, e, b, s):
+    """First attribute that differs from the exact record e (Fractions), or None."""
     if obs['err']:
         return 'exception ' + obs['exc']
-    M, N = len(exp['acoeff']), len(exp['yfit'])
-    if len(obs['acoeff']) != M or any(not close(o, e) for o, e in zip(obs['acoeff'], exp['acoeff'])):
+    M, N = len(e['acoeff']), len(e['yfit'])
+    # vectors are compared relative to their own largest entry (round-off of a solver scales with the vector)
+    sa = max(abs(float(x)) for x in e['acoeff']) or 1.0
+    if len(obs['acoeff']) != M or any(not (np.isfinite(o) and abs(o - float(x)) <= RTOL * sa)
+                                      for o, x in zip(obs['acoeff'], e['acoeff'])):
         return 'acoeff'
-    if len(obs['yfit']) != N or any(not close(o, e) for o, e in zip(obs['yfit'], exp['yfit'])):
+    sy = max(abs(float(x)) for x in e['yfit']) or 1.0
+    if len(obs['yfit']) != N or any(not (np.isfinite(o) and abs(o - float(x)) <= RTOL * sy)
+                                    for o, x in zip(obs['yfit'], e['yfit'])):
         return 'yfit'
-    if not close(obs['chi2'], exp['chi2']):
+    maxbs = max(abs(float(bi) * float(si)) for bi, si in zip(b, s))
+    if not (np.isfinite(obs['chi2']) and abs(obs['chi2'] - float(e['chi2'])) <= chi2_tol(e['chi2'], maxbs, N)):
         return 'chi2'
-    if obs['dof'] != exp['dof']:
+    if obs['dof'] != e['dof']:
         return 'dof'
     if len(obs['covar']) != M or any(len(r) != M for r in obs['covar']) or \
-            any(not close(obs['covar'][j][k], exp['covar'][j][k]) for j in range(M) for k in range(M)):
+            any(abs(obs['covar'][j][k] - float(e['covar'][j][k])) > RTOL * max(abs(float(e['covar'][j][j])), abs(float(e['covar'][k][k])))
+                for j in range(M) for k in range(M)):
         return 'covar'
-    if len(obs['var']) != M or any(not close(o, e) for o, e in zip(obs['var'], exp['var'])):
+    if len(obs['var']) != M or any(abs(o - float(x)) > RTOL * float(x) for o, x in zip(obs['var'], e['var'])):
         return 'var'
     return None
 
@@ -191,26 +252,36 @@ def attr_order(rng):
     return o
 
 
+def check_wls(ctx, rep, c, exp, variant, order):
+    A, b, s, e = transform(c, exp, variant)
+    obs = run_chi2(A, b, s, c['conv'], order)
+    ctx.evaluated(1, 'wls-%s-%s' % (c['conv'], variant))
+    bad = wls_mismatch(obs, e, b, s)
+    if bad:
+        finding = 'D-C15-1' if (c['conv'] == '1d' and obs['err']) else None
+        rep('wls-' + ('1d-raises' if finding else bad.split()[0] + ('' if variant == 'plain' else '-' + variant)),
+            {'what': 'computechi2(A=%s, b=%s, sqivar=%s, conv=%s) [%s variant of the enumerated system]: %s differs from '
+                     'the exact weighted least-squares record (expected acoeff %s chi2 %s, observed %s)' % (
+                         A, b, s, c['conv'], variant, bad, [str(x) for x in e['acoeff']], e['chi2'],
+                         {k: obs.get(k) for k in ('acoeff', 'chi2', 'dof', 'exc')}),
+             'kind': 'wls', 'call': {k: c[k] for k in ('A', 'b', 's', 'conv')}, 'variant': variant, 'order': order,
+             'expected': exp},
+            finding=finding)
+    return obs, bad
+
+
 def replay_wls(ctx, rep, rng, c, exp, n):
     order = attr_order(rng)
-    obs = run_chi2(c['A'], c['b'], c['s'], c['conv'], order)
-    ctx.evaluated(1, 'wls-' + c['conv'])
+    obs, bad = check_wls(ctx, rep, c, exp, 'plain', order)
     ctx.validated()
     if any(v != 0 for v in c['b']) and len(set(c['s'])) > 1:
         ctx.nontriv(('wls', repr(c['A']), tuple(c['b']), tuple(c['s'])))
-    bad = wls_mismatch(obs, exp)
     if n % 2500 == 1:
         ctx.sample({'computechi2': {k: c[k] for k in ('A', 'b', 's', 'conv')}, 'expected_acoeff': exp['acoeff'],
                     'observed_acoeff': obs.get('acoeff')})
-    if bad:
-        finding = 'D-C15-1' if (c['conv'] == '1d' and obs['err']) else None
-        rep('wls-' + ('1d-raises' if finding else bad.split()[0]),
-            {'what': 'computechi2(A=%s, b=%s, sqivar=%s, conv=%s): %s differs from the exact weighted least-squares '
-                     'record (expected acoeff %s chi2 %s, observed %s)' % (
-                         c['A'], c['b'], c['s'], c['conv'], bad, exp['acoeff'], exp['chi2'],
-                         {k: obs.get(k) for k in ('acoeff', 'chi2', 'dof', 'exc')}),
-             'kind': 'wls', 'call': {k: c[k] for k in ('A', 'b', 's', 'conv')}, 'order': order, 'expected': exp},
-            finding=finding)
+    if not bad:
+        # the same system with large values / weights and as a nearly exact fit of a large signal
+        check_wls(ctx, rep, c, exp, 'scaled' if n % 2 else 'highsn', attr_order(rng))
 
 
 # ----------------------------------------------------------------------------------------------
@@ -585,7 +656,7 @@ def build_traces(info, base):
         ev = stepped_trace(info)
         return [{'nn': info['nn'], 'eps': eps_flag(info['epsilon']), 'niter': info['niter'], 'twin': 0, 'events': ev}], [None]
     rng = np.random.RandomState(info['dseed'])
-    S, iv = make_data(rng, info['N'], info['M'], 2, info['nn'], 0.1)
+    S, iv = make_data(rng, info['N'], info['M'], info.get('R', 2), info['nn'], 0.1)
     out, excs, first = [], [], None
     for twin in (0, 1):
         ev, a, g, exc = iterate_trace(S.copy(), iv.copy(), info['K'], info['niter'], info['seed'], info['nn'],
@@ -599,6 +670,32 @@ def build_traces(info, base):
                     'twin': (base + 1 if twin == 1 else 0), 'events': ev})
         excs.append(exc)
     return out, excs
+
+
+def plain_solve(info, seed, preseed):
+    from pydl.pydlspec2d.spec1d import HMF
+    rng = np.random.RandomState(info['dseed'])
+    S, iv = make_data(rng, info['N'], info['M'], info.get('R', 2), info['nn'], 0.1)
+    np.random.seed(preseed)
+    with warnings.catch_warnings():
+        warnings.simplefilter('ignore')
+        out = HMF(S, iv, K=info['K'], n_iter=info['niter'], seed=seed, nonnegative=info['nn'],
+                  epsilon=info['epsilon']).solve()
+    return np.asarray(out['acoeff']), np.asarray(out['flux'])
+
+
+def seed_sensitive_data(ctx, rng, nn):
+    """A data seed for which two solve() runs WITHOUT a seed, started from the two global RNG states the twins use,
+    give different factors (control pair): only there does 'same seed => identical results' say anything."""
+    for _ in range(12):
+        dseed = rng.randrange(2**31)
+        info = {'N': 30, 'M': 60, 'R': 3, 'K': 4, 'nn': nn, 'epsilon': None, 'niter': 2, 'dseed': dseed}
+        a1, g1 = plain_solve(info, None, 1000)
+        a2, g2 = plain_solve(info, None, 1077)
+        ctx.evaluated(2, 'hmf-seed-control')
+        if not (np.array_equal(a1, a2) and np.array_equal(g1, g2)):
+            return dseed
+    raise core.MachineryError('no data found on which unseeded HMF runs differ: the seed law would be vacuous')
 
 
 def judge_traces(ctx, rep, traces, info, excs, label):
@@ -650,6 +747,12 @@ def hmf_traces(ctx, rep, behaviours):
                     N, M = (14, 28) if ctx.quick else [(14, 28), (20, 40), (24, 36)][rep_i]
                     add({'how': 'solve', 'N': N, 'M': M, 'K': K, 'nn': nn, 'epsilon': epsilon,
                          'seed': rng.randrange(1, 10**6), 'niter': 2 if ctx.quick else 3, 'dseed': rng.randrange(2**31)})
+    # ---- seed = 0 twins, on data where an UNSEEDED pair really differs (so the law is not vacuous) ----
+    for nn in (False, True):
+        for _ in range(1 if ctx.quick else 3):
+            info = {'how': 'solve', 'N': 30, 'M': 60, 'R': 3, 'K': 4, 'nn': nn, 'epsilon': None, 'seed': 0,
+                    'niter': 2, 'dseed': seed_sensitive_data(ctx, rng, nn)}
+            add(info)
     judge_traces(ctx, rep, traces, infos, excs, 'Trace_LinSolve[hmf %d traces]' % len(traces))
     ctx.sample({'hmf_trace': infos[0], 'events_head': traces[0]['events'][:3]})
     ctx.sample({'hmf_trace': infos[-1], 'n_events': len(traces[-1]['events']), 'last_event': traces[-1]['events'][-1]})
@@ -706,6 +809,57 @@ def wls_record(A, b, s, conv, order):
     rec['ret'] = ret
     rec['exc'] = ''
     return rec
+
+
+def wlsf_record(mode, N, M, dseed):
+    """computechi2 on a FLOAT system: 'highsn' (bright polynomial continuum, errors 1e-3..1e-5, sqivar = 1/sigma),
+    'noisefree' (b exactly a combination of the columns) or 'ordinary'.  Only returned attributes are measured."""
+    from pydl.pydlutils.math import computechi2
+    rng = np.random.RandomState(dseed)
+    x = np.linspace(-1.0, 1.0, N)
+    A = np.vstack([x ** p for p in range(M)]).T
+    x0 = np.array([5000.0, 300.0, -120.0])[:M] * rng.uniform(0.5, 2.0, M)
+    if mode == 'highsn':
+        sigma = 10.0 ** (-rng.randint(3, 6)) * rng.uniform(0.5, 2.0, N)
+        b = A @ x0 + sigma * rng.randn(N)
+        sq = 1.0 / sigma
+    elif mode == 'noisefree':
+        b = A @ x0
+        sq = rng.uniform(0.5, 2.0, N) * 10.0 ** rng.randint(0, 4)
+    else:
+        sigma = rng.uniform(50.0, 150.0, N)
+        b = A @ x0 + sigma * rng.randn(N)
+        sq = 1.0 / sigma
+    sq[rng.rand(N) < 0.1] = 0.0
+    rec = {'kind': 'wlsf', 'mode': mode, 'n': N, 'm': M, 'dseed': dseed, 'err': False, 'exc': '', 'neg': False, 'disc': 0,
+           'grad': 0, 'cinv': 0, 'dof': 0, 'npos': int((sq > 0).sum())}
+    try:
+        with warnings.catch_warnings():
+            warnings.simplefilter('ignore')
+            out = computechi2(b, sq, A)
+            chi2, yfit, covar, dof = float(out.chi2), np.asarray(out.yfit, dtype=float), np.asarray(out.covar), int(out.dof)
+    except Exception as ex:
+        rec['err'], rec['exc'] = True, '%s: %s' % (type(ex).__name__, str(ex)[:100])
+        return rec
+    res = (b - yfit) * sq
+    R = float(np.sum(res ** 2))
+    maxbs = float(np.max(np.abs(b * sq)))
+    rec['neg'] = bool(not (chi2 >= 0))
+    rec['disc'] = units(chi2 - R, 1e-6 * R + chi2_tol(R, maxbs, N))
+    w = sq ** 2
+    gr = A.T @ (w * (b - yfit))
+    scl = np.abs(A.T) @ (w * np.abs(b)) + np.abs(A.T) @ (w * np.abs(yfit))
+    rec['grad'] = units(np.max(np.abs(gr) / np.where(scl > 0, scl, 1.0)), 1e-9)
+    G = A.T @ (A * w[:, None])
+    rec['cinv'] = units(np.max(np.abs(covar @ G - np.eye(M))), 1e-8)
+    rec['dof'] = dof
+    rec['chi2'] = [int(np.floor(min(abs(chi2), 2e9))), 1]          # informational
+    return rec
+
+
+def record_wlsf(rng, k):
+    mode = ['highsn', 'noisefree', 'highsn', 'ordinary'][k % 4]
+    return wlsf_record(mode, rng.choice([20, 60, 200]), rng.choice([1, 2, 3]), rng.randrange(2**31))
 
 
 def sc(v, s=PS):
@@ -793,6 +947,7 @@ def recorded_calls(ctx, rep):
     quiet_pydl()
     rng = random.Random(ctx.seed)
     recs = [record_wls(rng) for _ in range(600 if ctx.quick else 6000)]
+    recs += [record_wlsf(rng, k) for k in range(60 if ctx.quick else 600)]
     recs += [record_pcomp(rng) for _ in range(400 if ctx.quick else 4000)]
     recs += [record_pca(rng, ctx.quick) for _ in range(12 if ctx.quick else 80)]
     judged = core.validate_records(ctx, 'Trace_LinSolve', recs, chunk=2500, extra_env={'VERIF_MODE': 'recs'})
@@ -802,6 +957,8 @@ def recorded_calls(ctx, rep):
         ctx.evaluated(1, 'recorded-' + rec['kind'])
         if rec['kind'] == 'wls':
             ctx.nontriv(('rwls', repr(rec['A']), tuple(rec['b']), tuple(rec['s'])))
+        elif rec['kind'] == 'wlsf':
+            ctx.nontriv(('rwlsf', rec['dseed']))
         elif rec['kind'] == 'pcomp':
             ctx.nontriv(('rpc', repr(rec['x']), rec['std'], rec['cov']))
         else:
@@ -810,11 +967,11 @@ def recorded_calls(ctx, rep):
             continue
         why, _, dev = judged[k].partition('|')
         brief = {x: rec[x] for x in rec if x in ('A', 'b', 's', 'conv', 'x', 'std', 'cov', 'maxiter', 'niter', 'nkeep',
-                                                  'shape', 'exc', 'nan', 'dseed')}
+                                                  'shape', 'exc', 'nan', 'dseed', 'mode', 'n', 'm', 'neg', 'disc', 'grad', 'cinv')}
         rep('recorded-%s-%s' % (rec['kind'], why.split()[0]),
             {'what': 'recorded %s call rejected by Trace_LinSolve (%s): %s' % (rec['kind'], why, brief),
              'kind': 'record', 'record': rec}, finding=dev or None)
-    for kind in ('wls', 'pcomp', 'pca'):
+    for kind in ('wls', 'wlsf', 'pcomp', 'pca'):
         first = next(r for r in recs if r['kind'] == kind)
         ctx.sample({'recorded_' + kind: {x: first[x] for x in list(first)[:6]}})
     return nskip
@@ -831,6 +988,14 @@ def run(ctx):
     ctx.assumptions = [
         'part (a) computechi2 is model-checked: exact rationals from TLC for N <= 5, M <= 3, |A| <= 3, sqivar <= 3 '
         '(32-bit TLC integers bound the instance); floats are accepted within 1e-8 relative',
+        'every enumerated system is also replayed scaled by powers of two (A*2^3, b*2^20, sqivar*2^16) or with the model '
+        'vector A.z*2^24 added to b (nearly exact fit of a large signal); the expected values are TLC\'s, rescaled / shifted '
+        'as the TLC-checked laws HomogeneousInA/B/S and ModelShift say (checked with factor 2 and z = (1,-1,2); they are '
+        'polynomial identities); chi2 is compared with an absolute tolerance tied to the residual scale, not to |b*sqivar|^2',
+        'recorded float systems (high signal-to-noise, noise-free): chi2 >= 0, chi2 vs the weighted residual of the RETURNED '
+        'yfit, gradient and covar inverse are harness-measured and judged by TLC as scaled integers (exploration level)',
+        'HMF seed determinism is exercised with seed = 0 and random seeds, on data for which a control pair of UNSEEDED runs '
+        'from the same two global RNG states differs',
         'code -> spec for (a) abstracts every float to the rational with denominator <= 10^4 within 1e-9; systems are '
         'drawn so that the exact denominators stay below that bound',
         'HARNESS-EVALUATED numeric relations (level exploration, not model checking): pcomp laws on scaled integers '
@@ -884,11 +1049,9 @@ def replay(ctx, case):
     ctx.nontriv('b')
     if kind == 'wls':
         c, exp = case['call'], case['expected']
-        obs = run_chi2(c['A'], c['b'], c['s'], c['conv'], case.get('order', ATTRS))
-        bad = wls_mismatch(obs, exp)
-        print('replayed computechi2', c, '\nobserved:', obs, '\nexpected:', exp, '\nmismatch:', bad)
-        if bad:
-            rep('wls', case)
+        obs, bad = check_wls(ctx, rep, c, exp, case.get('variant', 'plain'), case.get('order', ATTRS))
+        print('replayed computechi2', c, case.get('variant', 'plain'), '\nobserved:', obs, '\nexpected (plain system):', exp,
+              '\nmismatch:', bad)
     elif kind == 'pcomp':
         r = run_pcomp(case['x'], case['std'], case['cov'])
         law, dev = pcomp_laws(case['x'], case['std'], case['cov'], case['expected'], r)
@@ -906,6 +1069,8 @@ def replay(ctx, case):
         old = case['record']
         if old['kind'] == 'wls':
             rec = wls_record(old['A'], old['b'], old['s'], old['conv'], old.get('order', ATTRS))
+        elif old['kind'] == 'wlsf':
+            rec = wlsf_record(old['mode'], old['n'], old['m'], old['dseed'])
         elif old['kind'] == 'pcomp':
             rec = pcomp_record(old['x'], old['std'], old['cov'])
         else:
